@@ -186,6 +186,7 @@ def run(ctx):
         k_coef(st)
     s_ops(st)
     s_extreme(st, jobs)
+    s_representation(st)
     s_admt(st)
     s_refine(st)
 
@@ -587,18 +588,174 @@ def s_extreme(st, jobs):
         check_extreme_case(st, kind, nx, ny, order, dx, dy, x0, y0, 'S-extreme')
 
 
+# ------------------------------------------------------------------- input representations, caller's data, repeatability
+REPS = ('float64', 'int64', 'int32', 'float32', 'list-int', 'list-float', 'tuple-int', 'tuple-float', 'fortran', 'noncontig',
+        'readonly')
+
+
+def rep_family(r):
+    return {'int64': 'int-vertices', 'int32': 'int-vertices', 'list-int': 'int-vertices', 'tuple-int': 'int-vertices',
+            'float32': 'float32-vertices'}.get(r, r + '-vertices')
+
+
+def make_rep(v, r):
+    """the N x 4 x 2 float64 vertex array `v` (whole-number coordinates) in another representation"""
+    if r == 'float64':
+        return v.copy()
+    if r in ('int64', 'int32', 'float32'):
+        return v.astype(r)
+    if r == 'list-int':
+        return [[[int(c) for c in p] for p in vox] for vox in v]
+    if r == 'list-float':
+        return v.tolist()
+    if r == 'tuple-int':
+        return tuple(tuple((int(p[0]), int(p[1])) for p in vox) for vox in v)
+    if r == 'tuple-float':
+        return tuple(tuple((float(p[0]), float(p[1])) for p in vox) for vox in v)
+    if r == 'fortran':
+        return np.asfortranarray(v)
+    if r == 'noncontig':
+        big = np.full((v.shape[0], 4, 4), 7.0)
+        big[:, :, ::2] = v
+        return big[:, :, ::2]
+    if r == 'readonly':
+        w = v.copy()
+        w.setflags(write=False)
+        return w
+    raise ValueError(r)
+
+
+def snapshot(o):
+    """deep, comparable copy of an argument (arrays keep dtype, shape and bytes)"""
+    if isinstance(o, np.ndarray):
+        return ('nd', o.dtype.str, o.shape, o.tobytes())
+    if isinstance(o, dict):
+        return ('dict', tuple((k, snapshot(o[k])) for k in o))
+    if isinstance(o, (list, tuple)):
+        return (type(o).__name__, tuple(snapshot(x) for x in o))
+    return ('v', repr(o))
+
+
+def s_representation(st):
+    """(1) the same whole-number grid handed over as int / float32 / float64 arrays, nested lists and tuples, Fortran
+    order, a strided view, a read-only array must give operators with the same exactness properties; (2) neither
+    function may modify what the caller passed (vertex container, maps, operator dict and its matrices, psi, radii) and
+    two consecutive calls with the same inputs must return the same result — otherwise the operators 'built from them'
+    on the next use are no longer the ones the property talks about."""
+    ctx, rng = st.ctx, st.ctx.rng
+    A = st.A
+    grids = [(2, 2), (3, 3), (3, 4), (4, 2)] + [(rng.randint(2, 6), rng.randint(2, 6)) for _ in range(ctx.n(1, 6))]
+    for nx, ny in grids:
+        dx, dy = float(rng.choice([2, 4, 6])), float(rng.choice([2, 4, 8]))
+        x0, y0 = float(rng.randint(3, 9)), float(rng.randint(-6, 6))
+        cells = full_cells(nx, ny)
+        v, m12, m21 = make_grid(cells, dx, dy, x0, y0)
+        st0, base = call(A.generate_derivative_operators, v.copy(), m12, m21)
+        for r in REPS:
+            ctx.count('S-rep:vertices:' + r)
+            check_ops_case(st, cells, dx, dy, x0, y0, nx, ny, 'S-rep', representation=r)
+            # caller's data and repeatability
+            arg = make_rep(v, r)
+            a12, a21 = dict(m12), dict(m21)
+            before = (snapshot(arg), snapshot(a12), snapshot(a21))
+            s1, o1 = call(A.generate_derivative_operators, arg, a12, a21)
+            after = (snapshot(arg), snapshot(a12), snapshot(a21))
+            s2, o2 = call(A.generate_derivative_operators, arg, a12, a21)
+            where = dict(stream='S-rep', nx=nx, ny=ny, cells=cells, dx=dx, dy=dy, x0=x0, y0=y0, representation=r)
+            ctx.case(key=('S-rep', 'generate', nx, ny, r))
+            if before != after:
+                what = [n for n, x, y in zip(('voxel_vertices', 'grid_index_1d_to_2d_map', 'grid_index_2d_to_1d_map'), before, after) if x != y]
+                ctx.fail('C20:generate_derivative_operators:modifies-argument:' + '+'.join(what),
+                         'the call changed the caller\'s %s (vertices given as %s)' % (', '.join(what), r), where)
+            if s1 == 'ok' and s2 == 'ok':
+                if any(not np.array_equal(np.asarray(o1[k]), np.asarray(o2[k])) for k in OPS):
+                    ctx.fail('C20:generate_derivative_operators:not-repeatable', 'two consecutive calls with the same arguments differ', where)
+                if st0 == 'ok' and any(not np.array_equal(np.asarray(o1[k]), np.asarray(base[k])) for k in OPS):
+                    # exactness oracles above decide whether this is a violation; as a tie it is a disagreement with
+                    # the model, which has no notion of representation
+                    if not any(f['signature'].endswith(rep_family(r)) for f in ctx.failing):
+                        ctx.broke('correspondence', 'C20 representation ' + r, dict(where, note='operators differ from the float64 call'))
+        if st0 != 'ok':
+            continue
+        # ---- calculate_admt: representations of radii / psi / operators; caller's data; repeatability
+        c = v.mean(axis=1)
+        x = c[:, 0]
+        psi = np.array([float((ix + 1) ** 2 + 2 * (iy + 2) ** 2 + (ix + 1) * (iy + 2)) for ix, iy in cells])   # whole numbers, curved
+        aniso = float(rng.choice([1, 2, 10]))
+        sref, ref = call(A.calculate_admt, x.copy(), {k: np.array(base[k], dtype=float) for k in OPS}, psi.copy(), dx, dy, aniso)
+        jet, N = reference_admt({k: np.asarray(base[k], dtype=float) for k in OPS}, psi, x, dx, dy, aniso)
+        if sref != 'ok' or N.min() <= 0:
+            continue
+        variants = [('float64', 'float64', 'c'), ('int64', 'int64', 'c'), ('int32', 'float64', 'c'), ('float32', 'float32', 'c'),
+                    ('list', 'float64', 'c'), ('float64', 'noncontig', 'c'), ('readonly', 'readonly', 'readonly'),
+                    ('float64', 'int32', 'fortran'), ('tuple', 'int64', 'c')]
+        for rr, pr, orr in variants:
+            ctx.count('S-rep:admt:%s/%s/%s' % (rr, pr, orr))
+            radii = {'float64': x.copy(), 'int64': x.astype('int64'), 'int32': x.astype('int32'), 'float32': x.astype('float32'),
+                     'list': [float(t) for t in x], 'tuple': tuple(int(t) for t in x), 'readonly': x.copy()}[rr]
+            if pr == 'noncontig':
+                big = np.full(2 * len(psi), -3.0)
+                big[::2] = psi
+                p = big[::2]
+            else:
+                p = {'float64': psi.copy(), 'int64': psi.astype('int64'), 'int32': psi.astype('int32'),
+                     'float32': psi.astype('float32'), 'readonly': psi.copy()}[pr]
+            ops = {k: (np.asfortranarray(np.array(base[k], dtype=float)) if orr == 'fortran' else np.array(base[k], dtype=float)) for k in OPS}
+            if orr == 'readonly':
+                for k in OPS:
+                    ops[k].setflags(write=False)
+                radii.setflags(write=False)
+                p.setflags(write=False)
+            where = dict(stream='S-rep', nx=nx, ny=ny, dx=dx, dy=dy, x0=x0, y0=y0, anisotropy=aniso, psi=[float(t) for t in psi],
+                         radii_as=rr, psi_as=pr, operators_as=orr)
+            before = (snapshot(radii), snapshot(ops), snapshot(p))
+            s1, L1 = call(A.calculate_admt, radii, ops, p, dx, dy, aniso)
+            after = (snapshot(radii), snapshot(ops), snapshot(p))
+            s2, L2 = call(A.calculate_admt, radii, ops, p, dx, dy, aniso)
+            ctx.case(key=('S-rep', 'admt', nx, ny, rr, pr, orr))
+            if s1 != 'ok':
+                ctx.fail('C20:calculate_admt:raises:%s:radii=%s,psi=%s,operators=%s' % (s1, rr, pr, orr),
+                         'calculate_admt raised %s: %s' % (s1, L1), where)
+                continue
+            if before != after:
+                what = [n for n, a_, b_ in zip(('voxel_radii', 'derivative_operators', 'psi_at_voxels'), before, after) if a_ != b_]
+                ctx.fail('C20:calculate_admt:modifies-argument:' + '+'.join(what),
+                         'the call changed the caller\'s %s; operators built from them afterwards are different ones' % ', '.join(what), where)
+            if s2 != 'ok' or not np.array_equal(L1, L2):
+                ctx.fail('C20:calculate_admt:not-repeatable', 'two consecutive calls with the same arguments differ (max %g)'
+                         % (np.abs(np.asarray(L1) - np.asarray(L2)).max() if s2 == 'ok' else float('nan')), where)
+            rowscale = np.abs(jet).max(axis=1)
+            err = (np.abs(np.asarray(L1) - jet).max(axis=1) / rowscale).max()
+            tol = 1e-6 if 'float32' in (rr, pr) else 1e-10
+            if not np.all(np.isfinite(L1)) or err > tol:
+                ctx.fail('C20:calculate_admt:coefficients-differ-from-jet:radii=%s,psi=%s' % (rr, pr),
+                         'with radii as %s, psi as %s, operators %s the result differs from the discretised div(D grad f) '
+                         '(relative row error %.3g)' % (rr, pr, orr, err), where)
+
+
 # ---------------------------------------------------------------------------------------------- S: operators
 def poly(a, x, y):
     return a[0] + a[1] * x + a[2] * y + a[3] * x * x + a[4] * x * y + a[5] * y * y
 
 
-def check_ops_case(st, cells, dx, dy, x0, y0, nx, ny, stream):
+def check_ops_case(st, cells, dx, dy, x0, y0, nx, ny, stream, representation=None):
     """direct oracles for the derivative operators on one full grid"""
     ctx, rng = st.ctx, st.ctx.rng
-    v, m12, m21, (status, ops) = gen(st, cells, dx, dy, x0, y0)
     rep = dict(stream=stream, nx=nx, ny=ny, cells=cells, dx=dx, dy=dy, x0=x0, y0=y0)
+    sfx, rdesc = '', ''
+    if representation is None:
+        v, m12, m21, (status, ops) = gen(st, cells, dx, dy, x0, y0)
+    else:
+        # same grid, vertices handed over in another representation (dtype / container / memory layout)
+        v, m12, m21 = make_grid(cells, dx, dy, x0, y0)
+        status, ops = call(st.A.generate_derivative_operators, make_rep(v, representation), m12, m21)
+        rep['representation'] = representation
+        sfx, rdesc = ':' + rep_family(representation), ' [vertices given as %s]' % representation
+
+    def fail(sig, d, r):
+        ctx.fail(sig + sfx, d + rdesc, r)
     if status != 'ok':
-        ctx.fail('C20:generate_derivative_operators:raises:' + status, 'full %dx%d grid raised %s' % (nx, ny, status), rep)
+        fail('C20:generate_derivative_operators:raises:' + status, 'full %dx%d grid raised %s' % (nx, ny, status), rep)
         return
     c = v.mean(axis=1)
     x, y = c[:, 0], c[:, 1]
@@ -615,7 +772,7 @@ def check_ops_case(st, cells, dx, dy, x0, y0, nx, ny, stream):
     for name in OPS:
         M = np.asarray(ops[name])
         if not np.all(np.isfinite(M)):
-            ctx.fail('C20:%s:not-finite' % name, 'non-finite entry', rep)
+            fail('C20:%s:not-finite' % name, 'non-finite entry', rep)
             continue
         floor = 64 * 2.3e-16 * mag / den[name] + 1e-300
         exp_lin = dict(Dx=a[1], Dy=a[2], Dxx=0.0, Dxy=0.0, Dyy=0.0)[name]
@@ -630,20 +787,20 @@ def check_ops_case(st, cells, dx, dy, x0, y0, nx, ny, stream):
             where = dict(rep, cell=[ix, iy], cls=cl, op=name, coefficients=a)
             tiny = 64 * 2.3e-16 * np.abs(M[i]).sum() + 1e-300
             if abs(rs[i]) > tiny:
-                ctx.fail('C20:%s:constant-not-annihilated:%s' % (name, cl), 'row sum %g in cell %r of a %dx%d grid' % (rs[i], (ix, iy), nx, ny), where)
+                fail('C20:%s:constant-not-annihilated:%s' % (name, cl), 'row sum %g in cell %r of a %dx%d grid' % (rs[i], (ix, iy), nx, ny), where)
             if name in ('Dx', 'Dy'):
                 got = (M @ lin)[i]
                 if abs(got - exp_lin) > floor:
-                    ctx.fail('C20:%s:linear-not-exact:%s' % (name, cl), '%s of a linear field = %r, exact %r' % (name, got, exp_lin), where)
+                    fail('C20:%s:linear-not-exact:%s' % (name, cl), '%s of a linear field = %r, exact %r' % (name, got, exp_lin), where)
             if name == 'Dxy':
                 got = (M @ bil)[i]
                 if abs(got - exp_bil) > floor:
-                    ctx.fail('C20:Dxy:bilinear-not-exact:%s' % cl, 'Dxy of a bilinear field = %r, exact %r' % (got, exp_bil), where)
+                    fail('C20:Dxy:bilinear-not-exact:%s' % cl, 'Dxy of a bilinear field = %r, exact %r' % (got, exp_bil), where)
             if cl == '--':
                 got = (M @ quad)[i]
                 e = exp_quad if np.isscalar(exp_quad) else exp_quad[i]
                 if abs(got - e) > floor:
-                    ctx.fail('C20:%s:quadratic-not-exact:interior' % name, '%s of a quadratic = %r, exact %r' % (name, got, e), where)
+                    fail('C20:%s:quadratic-not-exact:interior' % name, '%s of a quadratic = %r, exact %r' % (name, got, e), where)
     return ops, x, y
 
 
@@ -834,8 +991,9 @@ def s_refine(st):
 # ------------------------------------------------------------------------------------------------- replay
 def replay_case(st, r):
     r = r.get('replay', r)
-    if 'extreme' not in r and r.get('stream') in ('ops', 'S', 'K-seed') and 'cells' in r:
-        check_ops_case(st, [tuple(c) for c in r['cells']], r['dx'], r['dy'], r['x0'], r['y0'], r['nx'], r['ny'], 'replay')
+    if 'extreme' not in r and 'cells' in r and 'psi' not in r:
+        check_ops_case(st, [tuple(c) for c in r['cells']], r['dx'], r['dy'], r['x0'], r['y0'], r['nx'], r['ny'], 'replay',
+                       representation=r.get('representation'))
     elif 'extreme' in r:
         check_extreme_case(st, r['extreme'], r['nx'], r['ny'], r.get('order', 'col'), r['dx'], r['dy'], r['x0'], r['y0'], 'replay')
     elif 'psi' in r and 'anisotropy' in r and 'nx' in r:
